@@ -68,3 +68,14 @@ Proof. vm_compute. reflexivity. Qed.
 Theorem node_scalars_read_by_contact_are_initialised :
   forallb (fun x => let '(_, init, read) := x in implb read init) node_scalars = true.
 Proof. vm_compute. reflexivity. Qed.
+
+(* ------------------------------------------------------------------------------------------------------------------
+   lifetime of the list indices stored by the contact phase: in the order of the phases READ FROM src/solver.cpp on this run
+   (Iteration_gen.v) they are consumed after the divider has finished changing the population list and before the removal
+   erases from it, and the renumbering follows the erase (an index stored before an erase and used after it subscripts the
+   node vector of whichever cell slid into the freed slot) *)
+From SC Require Import IterationDefs Iteration_gen Iteration.
+Theorem stored_list_indices_are_consumed_before_the_list_changes :
+  (iteration_translation_ok && stored_indices_used_between_list_changes run_iteration_phases)%bool = true.
+Proof. vm_compute. reflexivity. Qed.
+Print Assumptions stored_list_indices_are_consumed_before_the_list_changes.
